@@ -105,7 +105,9 @@ class Tools:
         mir = sig[:-2] + '.mir'
         rc2, o2, e2 = vlib.sh([self.c2m, sig, '-S', '-o', mir], timeout=300, cwd=self.dir)
         sigs = {}
+        fns = {}
         if os.path.exists(mir):
+            fns = G.mir_functions(open(mir, errors='replace').read())
             for m in re.finditer(r'^(ret\d+|arg\d+_\d+|mix\d+):\s+func[ \t]*(.*)$', open(mir, errors='replace').read(), re.M):
                 sigs[m.group(1)] = [x.strip() for x in m.group(2).split(',')] if m.group(2).strip() else []
         pres = ' '.join('%d,%d' % p for p in G.PRE_ARGS)
@@ -135,6 +137,9 @@ class Tools:
             else:
                 r['c2m_ret'] = ''.join({'f': 'S', 'd': 'S', 'ld': 'X'}.get(x, 'I' if re.match(r'[iu](8|16|32|64)$', x) else '?')
                                        for x in ps if ':' not in x)
+            # the typed moves of the returned pieces: in a c2m callee (ret<i>) and in a c2m caller (cal<i>)
+            r['c2m_racc'] = G.ret_accesses(fns['ret%d' % i]) if 'ret%d' % i in fns else None
+            r['c2m_cacc'] = G.call_accesses(fns['cal%d' % i], 'ext%d' % i) if 'cal%d' % i in fns else None
             args = []
             for j in range(len(G.PRE_ARGS)):
                 ps = sigs.get('arg%d_%d' % (i, j))
@@ -144,6 +149,7 @@ class Tools:
             mc, ms = om[i].split('|')
             kv = dict(x.split('=') for x in mc.split()[1:])
             r['mc_ret'], r['mc_args'] = kv['ret'], kv['args'].split(';')
+            r['mc_racc'] = kv.get('racc')
             kv = dict(x.split('=') for x in ms.split())
             r['ms_ret'], r['ms_args'] = kv['ret'], kv['args'].split(';')
             r['wf'] = kv.get('wf')
@@ -272,6 +278,9 @@ def kverdict(t, r):
         return 'abi-mismatch'
     if r['c2m_ret'] != r['mc_ret'] or r['c2m_args'] != r['mc_args']:
         return 'model-c2m'
+    # access type and offset of every returned piece (model ret_pieces; theorems ret_bytes_cover, ret_tail_access)
+    if r.get('c2m_racc') != r.get('mc_racc') or r.get('c2m_cacc') != r.get('mc_racc'):
+        return 'model-c2m-retaccess'
     if r['gcc_arg'].upper() != first(r['ms_args'][0]).upper() or not ret_same(r['gcc_ret'], r['ms_ret']):
         return 'model-sysv'
     if [blk_letters(b) for b in r['mc_args']] != r['ms_args'] or r['mc_ret'] != r['ms_ret']:
@@ -464,13 +473,14 @@ def classify_part(chk, tools, decls, label):
             chk.dist('bitfield_touching_two_eightbytes', 'old first-eightbyte rule would differ' if r.get('head') != first(r['ms_args'][0]).upper().replace('N', 'I')
                      else 'old rule agrees')
         chk.dist('arg_class(gcc)', (r['gcc_arg'] or '?').upper())
+        chk.dist('ret_accesses(c2m -S, callee)', r.get('c2m_racc') or '?')
         chk.dist('ret_class(gcc)', (r['gcc_ret'] or '?').upper())
         if v not in ('ok', 'padding-eightbyte', 'gcc-union-unnamed-bf', 'gcc-fullwidth-unnamed-bf'):
             bad.setdefault(v, []).append((t, r))
     chk.log('%s: %d declarations, verdicts %s' % (label, len(decls), {k: len(v) for k, v in bad.items()} or 'all ok'))
     seen = set()
     real = 0
-    for v in ('abi-mismatch', 'c2m-fails', 'spy-unreadable', 'model-c2m', 'model-sysv', 'models-differ'):
+    for v in ('abi-mismatch', 'c2m-fails', 'spy-unreadable', 'model-c2m', 'model-c2m-retaccess', 'model-sysv', 'models-differ'):
         for t, r in bad.get(v, [])[:5]:
             def fails(c, v=v):
                 if not G.passable(c):
@@ -494,6 +504,9 @@ def classify_part(chk, tools, decls, label):
                 chk.finding('harness:spy', obj, 'the register spy could not read how gcc passes ' + txt, no_input=True)
             else:
                 DEFERRED.append(('tie:' + v, obj, {'model-c2m': 'c2m agrees with gcc but no longer with its Coq classification model on: ',
+                                                   'model-c2m-retaccess': 'c2m moves the pieces of a value returned in registers with other access types/offsets '
+                                                   '(c2m -S: callee %s, caller %s) than the Coq model ret_pieces (%s; theorems ret_bytes_cover, ret_tail_access) on: '
+                                                   % (rr.get('c2m_racc'), rr.get('c2m_cacc'), rr.get('mc_racc')),
                                                    'model-sysv': 'gcc no longer agrees with the SysV classification model on: ',
                                                    'models-differ': 'the c2mir and SysV classification models differ on: '}[v] + txt))
     return bad
